@@ -136,6 +136,7 @@ A_SMALL = ["x = 1", "x <> 1", "x < 2", "x >= 1", "x > 1", "x <= 2", "1 < x", "x 
            "CASE WHEN x = 1 THEN b ELSE FALSE END", "y = 1"]
 A_TRI = ["x >= 1", "x <= 2", "1 < x", "x < 2", "x = 1", "x <> 1", "x = y", "b", "x IS NULL"]
 A_QUAD = ["x >= 1", "x < 2", "x = 1", "x = y", "b", "x IS NULL"]
+A_QUAD_QUICK = ["x >= 1", "x < 2", "x = 1", "b"]  # balanced (p . q) . (r . s): both operands of the root are connectors
 CONN = ["AND", "OR"]
 
 
@@ -171,12 +172,13 @@ def _triples(P, forms=(0, 1, 2, 3)):
     return out
 
 
-def _quads(P):
+def _quads(P, forms=(0, 1, 2)):
     out = []
     for p, q, r, s in itertools.product(P, repeat=4):
         for c1, c2, c3 in itertools.product(CONN, repeat=3):
-            out += [f"({p} {c1} {q}) {c2} ({r} {c3} {s})", f"{p} {c1} ({q} {c2} ({r} {c3} {s}))",
-                    f"(({p} {c1} {q}) {c2} {r}) {c3} {s}"]
+            g = [f"({p} {c1} {q}) {c2} ({r} {c3} {s})", f"{p} {c1} ({q} {c2} ({r} {c3} {s}))",
+                 f"(({p} {c1} {q}) {c2} {r}) {c3} {s}"]
+            out += [g[i] for i in forms]
     return out
 
 
@@ -191,6 +193,7 @@ def space(tier):
     out += _with_not(_pairs(A_PAIR, A_PAIR))
     out += _pairs_not(A_SMALL)
     out += _triples(A_TRI, (0, 1, 3)) + [f"NOT ({s})" for s in _triples(A_TRI, (0, 1))]
+    out += _quads(A_QUAD_QUICK, (0,))
     if tier == "thorough":  # a superset of quick
         out += _triples(A_TRI, (2,)) + [f"NOT ({s})" for s in _triples(A_TRI, (2, 3)) + _pairs_not(A_SMALL)]
         out += _pairs(A_PAIR, A)
@@ -612,8 +615,18 @@ def run_config(e, text, typed, fname, dialect, coalesce, transparency=False):
     if fname.startswith("normalize"):
         dnf = fname.endswith("dnf")
         if not (N.normalized(r, dnf=dnf) or r == e):
-            add("whole", "not-normal-form", root_conn,
-                f"{fname}: `{e.sql()}` became `{r.sql()}` which is neither {'DNF' if dnf else 'CNF'} nor the input")
+            form = "DNF" if dnf else "CNF"
+            if N.normalized(r.copy(), dnf=dnf):
+                # the contract is evaluated on the object normalize really returned; a detached copy passes, so the
+                # failure comes from the ancestors of the returned node: a different defect, hence a different key
+                add("returned-root-attached", "not-normal-form", root_conn,
+                    f"{fname}: `{e.sql()}` became `{r.sql()}`; normalized() is False on the returned node although its "
+                    f"subtree is {form}: the returned root is still attached (parent = "
+                    f"{type(r.parent).__name__ if r.parent is not None else None}) to the discarded input, so ancestor "
+                    "walks (find_ancestor, root, normalized) see stale connectors")
+            else:
+                add("whole", "not-normal-form", root_conn,
+                    f"{fname}: `{e.sql()}` became `{r.sql()}` which is neither {form} nor the input")
     if transparency:
         plain = _call(fname, e.copy(), dialect, coalesce)  # REC is None: wrappers pass through
         if plain != r or plain.sql() != r.sql():
@@ -714,7 +727,8 @@ def run(tier, seed):
                 "expression or at least one observed rule application changed its node",
         "bound": f"tier {tier}: {len(texts)} expressions (atoms, NOT atoms, all pairs over {len(A_PAIR)} atoms, pairs with NOT-ed operands "
                  f"over {len(A_SMALL)}, all triples over {len(A_TRI)} atoms in 4 groupings, each also under NOT (quick: NOT-operand pairs not under NOT, "
-                 "triples without the unparenthesised grouping, under NOT in the 2 connector-parenthesised groupings only)"
+                 "triples without the unparenthesised grouping, under NOT in the 2 connector-parenthesised groupings only), "
+                 f"balanced depth-2 quadruples (p.q).(r.s) over {len(A_QUAD_QUICK)} atoms"
                  + (f", thorough: pairs of the {len(A_PAIR)} with every atom, triples over {len(A_MED)} atoms, depth-3 "
                     f"over {len(A_QUAD)} atoms" if tier == "thorough" else "")
                  + "); x typed/untyped x {simplify, simplify(cp), normalize cnf/dnf} x dialects {None, mysql, redshift}"
